@@ -85,9 +85,12 @@ def convert_expression_string_to_predicate(
         return Predicate.from_bool(True)
     converter = _ConversionVisitor(context, universe)
     predicate = tree.visit(converter)
-    assert isinstance(predicate, Predicate), (
-        "The grammar should guarantee that we get a predicate back at the top level."
-    )
+    if not isinstance(predicate, Predicate):
+        # The grammar accepts any expression at the top level ('1',
+        # 'visit + 1', 'instrument', '1..5', 'null'), not just boolean ones.
+        raise InvalidQueryError(
+            f"Expression '{expression}' is of type {predicate.column_type}, not a boolean expression."
+        )
 
     return predicate
 
@@ -185,12 +188,21 @@ class _ConversionVisitor(TreeVisitor[_VisitorResult]):
     def visitIsIn(
         self, lhs: _VisitorResult, values: list[_VisitorResult], not_in: bool, node: Node
     ) -> _VisitorResult:
-        assert isinstance(lhs, _ColExpr), "LHS of IN guaranteed to be scalar by parser."
+        if not isinstance(lhs, _ColExpr):
+            # The parser guarantees a scalar expression, but that includes
+            # NULL and boolean-valued ones.
+            raise InvalidQueryError(
+                f"Invalid type {lhs.column_type} for the left-hand side of IN in expression {node!s}."
+            )
         predicates = [_convert_in_clause_to_predicate(lhs.value, rhs, node) for rhs in values]
         result = Predicate.from_bool(False).logical_or(*predicates)
         if not_in:
             result = result.logical_not()
         return result
+
+    def visitFunctionCall(self, name: str, args: list[_VisitorResult], node: Node) -> _VisitorResult:
+        # POINT() has its own node type; no other function is supported.
+        raise InvalidQueryError(f"Unknown function '{name}' in expression {node!s}.")
 
     def visitIdentifier(self, name: str, node: Node) -> _VisitorResult:
         name = name.lower()
